@@ -39,8 +39,9 @@ def params(n_key="N", vmax=3, gmax=2, with_k=False, extra=False):
 
 
 HORIZON = 235  # the test scheduler disposes the subscription here: bounds periodic timers on never-ending sources
+QUAD = {"join", "group_join", "buffer_toggle", "window_toggle"}
 NARROW = {"window_when", "buffer_when"}  # repeated closings: gaps and closing delay restricted to [0,1]
-HEAVY = {"group_by_until", "group_join", "join", "buffer_toggle", "window_toggle"}
+HEAVY = {"buffer_with_time", "window_with_time", "buffer_with_time_or_count", "window_with_time_or_count", "group_by_until", "group_join", "join", "buffer_toggle", "window_toggle"}
 
 
 class Run:
@@ -118,14 +119,16 @@ def subs_log(r):
     return out
 
 
-def instances(tier, nmax_quick=2, nmax_thorough=3, nmin=0, tagsel=None, names=None):
+def instances(tier, nmax_quick=2, nmax_thorough=3, nmin=0, tagsel=None, names=None, lean=False):
     nmax = nmax_quick if tier == "quick" else nmax_thorough
     out = []
     for name in (names or catalog.names()):
         if tagsel and not tagsel(E[name]["tags"]):
             continue
         for n in range(nmin, nmax + 1):
-            if tier == "quick" and n > max(nmin, 1) and name in HEAVY:
-                continue  # three symbolic sources: N = 2 needs more than the quick per-instance budget
+            if tier == "quick" and n > max(nmin, 1) and (name in HEAVY or (lean and E[name]["tags"] & {"inner", "other"})):
+                continue  # several symbolic sources: N = 2 needs more than the quick per-instance budget
+            if tier == "quick" and lean and name in QUAD:
+                continue  # three symbolic sources plus the property's own symbolic parameter: thorough tier only
             out.append({"op": name, "N": n})
     return out
